@@ -174,3 +174,97 @@ func TestC20_EonKeysPublished(t *testing.T) {
 		rec.Case(history+fmt.Sprint(order), maxPending >= 2, labels...)
 	})
 }
+
+// TestC20_RefusedHandOver: the publication callback refuses one hand-over (once). What the handler does
+// with the refused key and with the keys behind it in the same tick is outside the statement's premise
+// ("provided that mechanism accepts it"); what stays inside it: a key that was handed over and accepted is
+// never handed over a second time, and nothing is handed over that was not generated.
+func TestC20_RefusedHandOver(t *testing.T) {
+	rec := recorder("C20")
+	rec.AddRule("refused hand-over: callback mode, 2-5 eons of one keyper set finishing over 1-3 ticks (several per tick), the callback returns an error for one generated eon the first time it is offered; then 2 further ticks. Oracle: no key is accepted by the callback twice, every hand-over names a generated key with its activation block and keyper-set index. non-trivial = the refused key was not the first of its tick (keys were accepted before it in that tick)")
+	ctx := context.Background()
+	runRapid(t, N(300, 20000), func(rt *rapid.T) {
+		n := newDBNode(corekeyper.Definition, 2)
+		defer n.Close()
+		me := rapid.IntRange(0, 2).Draw(rt, "me")
+		cfg := mkKeyperConfig(me, 77, 100)
+		q := corekeyper.New(n.Pool)
+		act := int64(rapid.IntRange(0, 1000).Draw(rt, "act"))
+		cfgIdx := int64(rapid.IntRange(1, 5).Draw(rt, "cfgIdx"))
+		if err := q.InsertBatchConfig(ctx, corekeyper.InsertBatchConfigParams{KeyperConfigIndex: int32(cfgIdx), Height: 1, Keypers: addrStrings([]int{0, 1, 2}), Threshold: 1, Started: true, ActivationBlockNumber: act}); err != nil {
+			rt.Fatalf("setup: %v", err)
+		}
+		ne := rapid.IntRange(2, 5).Draw(rt, "neons")
+		first := int64(rapid.IntRange(1, 9).Draw(rt, "firstEon"))
+		var eons []int64
+		for k := 0; k < ne; k++ {
+			e := first + int64(k)
+			if err := q.InsertEon(ctx, corekeyper.InsertEonParams{Eon: e, Height: int64(10 + k), ActivationBlockNumber: act, KeyperConfigIndex: cfgIdx}); err != nil {
+				rt.Fatalf("setup: %v", err)
+			}
+			eons = append(eons, e)
+		}
+		refuse := eons[rapid.IntRange(0, ne-1).Draw(rt, "refuse")]
+		refused := false
+		accepted := map[uint64]int{}
+		var order []string
+		acceptedBeforeRefusalInTick := false
+		acceptedThisTick := 0
+		handler := func(_ context.Context, k keyper.EonPublicKey) error {
+			want := fmt.Sprintf("eon-public-key-%d", k.Eon)
+			if string(k.PublicKey) != want || k.ActivationBlock != uint64(act) || k.KeyperConfigIndex != uint64(cfgIdx) {
+				fatalf(rt, "eon-key-not-published-exactly-once", "hand-over %s does not name a generated key (activation %d, keyper set %d)", pubKeyRec{k.Eon, k.ActivationBlock, k.KeyperConfigIndex, string(k.PublicKey)}, act, cfgIdx)
+			}
+			if int64(k.Eon) == refuse && !refused {
+				refused = true
+				acceptedBeforeRefusalInTick = acceptedThisTick > 0
+				order = append(order, fmt.Sprintf("refuse(e%d)", k.Eon))
+				return fmt.Errorf("publication refused")
+			}
+			accepted[k.Eon]++
+			acceptedThisTick++
+			order = append(order, fmt.Sprintf("accept(e%d)", k.Eon))
+			return nil
+		}
+		msging, err := p2ptest.NewTestMessaging()
+		if err != nil {
+			rt.Fatalf("messaging: %v", err)
+		}
+		h, herr := keyper.VerifEonPubKeyHandlerFromOptions(cfg, n.Pool, keyper.WithMessaging(msging), keyper.NoBroadcastEonPublicKey(), keyper.WithEonPublicKeyHandler(handler))
+		if herr != nil {
+			rt.Fatalf("handler from options: %v", herr)
+		}
+		finish := rapid.Permutation(eons).Draw(rt, "finishOrder")
+		nticks := rapid.IntRange(1, 3).Draw(rt, "ticks")
+		pos := 0
+		for tick := 0; tick < nticks+2; tick++ {
+			k := 0
+			if tick < nticks {
+				k = rapid.IntRange(1, 4).Draw(rt, fmt.Sprintf("pending%d", tick))
+				if tick == nticks-1 {
+					k = len(finish) - pos
+				}
+			}
+			for ; k > 0 && pos < len(finish); k-- {
+				e := finish[pos]
+				pos++
+				if err := q.InsertEonPublicKey(ctx, corekeyper.InsertEonPublicKeyParams{EonPublicKey: []byte(fmt.Sprintf("eon-public-key-%d", e)), Eon: e}); err != nil {
+					rt.Fatalf("insert: %v", err)
+				}
+				order = append(order, fmt.Sprintf("generated(e%d)", e))
+			}
+			acceptedThisTick = 0
+			order = append(order, fmt.Sprintf("tick%d", tick))
+			_ = h.QueryAndHandle(ctx) // an error is what a refusal produces
+		}
+		if !checkEngine(t, rec, n) {
+			rt.Fatalf("inconclusive")
+		}
+		for e, c := range accepted {
+			if c > 1 {
+				fatalf(rt, "eon-key-published-again-after-acceptance", "the key of eon %d was handed over and accepted %d times\nhistory: %s", e, c, strings.Join(order, " "))
+			}
+		}
+		rec.Case(strings.Join(order, " "), refused && acceptedBeforeRefusalInTick, "refused-hand-over")
+	})
+}
